@@ -15,50 +15,49 @@ open LyModel LyModel.Lyb LyModel.Tree LyModel.LybTree LyModel.Generated
 print the same bytes; the node flags, `LYD_DEFAULT` among them, are always written) -/
 def Untagged (o : POpts) : Prop := o.tagAll = false ∧ o.tagImpl = false
 
-/-- the revision word of `ietf-netconf-with-defaults` (when the context has the module) survives the 7-bit year packing -/
-def WdRevOk (S : LSchema) : Prop := ∀ w, S.wd = some w → unpackRev (packRev w) = w
 
 /-- **LYB tree round trip, every with-defaults mode, the code as it is** (the true part of the full statement, which
 `lyb_tree_roundtrip_tagged_fails` refutes).  For every chunk-size parameter set `P` (side conditions `P.Ok`), every schema
 view `S` (any sibling sets, any names — the hash collisions are whatever the real `lyb_generate_hash` gives), every forest
 `t` whose nodes fit the schema (`WfForest`: leaf / leaf-list nodes carry the canonical form of a value of their type — any
-of the `Val` types or `empty` —, inner nodes are containers or list instances, keyed or key-less, in any number and order)
+of the `Val` types or `empty` —, every node may carry metadata instances of the annotations of `S` (`AnnotsOk`: the table is
+unambiguous; values canonical for the annotation's type), inner nodes are containers or list instances, keyed or key-less, in any number and order)
 and EVERY print option: **if the printer succeeds** (`printLyb … = some img`: `lyb_hash_siblings` resolves every sibling
 set that occurs — finding F27 is its failure — and no inner-chunk counter overflows), the parser run on the image returns
 `t` with the same nodes, order, canonical values and flags, where exactly the nodes the printer tagged (`wdTagged`:
 `LYD_DEFAULT` under ALL_TAG / IMPL_TAG, or a default-valued term node under ALL_TAG) carry the
 `ietf-netconf-with-defaults:default` annotation as a metadata instance (`viewNode`).  `parseLyb` is the parser with the fuel the driver gives it (`8·|img| + 16`); that it suffices is part of
 the theorem (`cost_le_image`: every node costs the printer at least five payload bytes, and the image holds the payload). -/
-theorem lyb_tree_roundtrip_tagged_partial (P : Params) (hP : P.Ok) (o : POpts) (S : LSchema) (hwd : WdRevOk S)
+theorem lyb_tree_roundtrip_tagged_partial (P : Params) (hP : P.Ok) (o : POpts) (S : LSchema) (hann : AnnotsOk S)
     (hname : S.modName ≠ []) (hrev : unpackRev (packRev S.rev) = S.rev)
     (t : List DNode) (hwf : WfForest S t) (img : Bytes) (hp : printLyb P o S t = some img) :
     parseLyb P S img = some (t.map (viewNode o S)) :=
-  doc_rt P hP o S hwd hname hrev t hwf img hp _ (by have := cost_le_image P hP o S t img hp; omega)
+  doc_rt P hP o S hann hname hrev t hwf img hp _ (by have := cost_le_image P hP o S t img hp; omega)
 
 /-- **LYB tree round trip** (untagged modes: explicit / trim / all): `parse (print t) = t`. -/
-theorem lyb_tree_roundtrip (P : Params) (hP : P.Ok) (o : POpts) (ho : Untagged o) (S : LSchema) (hwd : WdRevOk S)
+theorem lyb_tree_roundtrip (P : Params) (hP : P.Ok) (o : POpts) (ho : Untagged o) (S : LSchema) (hann : AnnotsOk S)
     (hname : S.modName ≠ []) (hrev : unpackRev (packRev S.rev) = S.rev)
     (t : List DNode) (hwf : WfForest S t) (img : Bytes) (hp : printLyb P o S t = some img) :
     parseLyb P S img = some t := by
-  have := lyb_tree_roundtrip_tagged_partial P hP o S hwd hname hrev t hwf img hp
+  have := lyb_tree_roundtrip_tagged_partial P hP o S hann hname hrev t hwf img hp
   rwa [viewL_id o S (fun n => untagged o S n (Or.inl ho))] at this
 
 /-- **… with the repair of finding F330** (`fixes/F330.diff`: `lyb_print_metadata` without the with-defaults block — the
 extractor then sets `lybWdAnnot = false`, the default of `POpts.wdAnnot`): `parse (print t) = t` under EVERY
 with-defaults mode, the tagged ones included: the flags carry the default-ness exactly. -/
 theorem lyb_tree_roundtrip_tagged_fixed (P : Params) (hP : P.Ok) (o : POpts) (hfix : o.wdAnnot = false) (S : LSchema)
-    (hwd : WdRevOk S) (hname : S.modName ≠ []) (hrev : unpackRev (packRev S.rev) = S.rev)
+    (hann : AnnotsOk S) (hname : S.modName ≠ []) (hrev : unpackRev (packRev S.rev) = S.rev)
     (t : List DNode) (hwf : WfForest S t) (img : Bytes) (hp : printLyb P o S t = some img) :
     parseLyb P S img = some t := by
-  have := lyb_tree_roundtrip_tagged_partial P hP o S hwd hname hrev t hwf img hp
+  have := lyb_tree_roundtrip_tagged_partial P hP o S hann hname hrev t hwf img hp
   rwa [viewL_id o S (fun n => untagged o S n (Or.inr hfix))] at this
 
 /-- the same at the constants of the source tree -/
-theorem lyb_tree_roundtrip_gen (o : POpts) (ho : Untagged o) (S : LSchema) (hwd : WdRevOk S) (hname : S.modName ≠ [])
+theorem lyb_tree_roundtrip_gen (o : POpts) (ho : Untagged o) (S : LSchema) (hann : AnnotsOk S) (hname : S.modName ≠ [])
     (hrev : unpackRev (packRev S.rev) = S.rev) (t : List DNode) (hwf : WfForest S t) (img : Bytes)
     (hp : printLyb Params.gen o S t = some img) :
     parseLyb Params.gen S img = some t :=
-  lyb_tree_roundtrip Params.gen C01Lyb.params_gen_ok o ho S hwd hname hrev t hwf img hp
+  lyb_tree_roundtrip Params.gen C01Lyb.params_gen_ok o ho S hann hname hrev t hwf img hp
 
 /-- the revision hypothesis holds for a module without revision and (by `lyb_revision_pack_roundtrip`) for every date
 2000-01-01 … 2127-12-31; outside that range the format cannot hold the year (finding F70) -/
@@ -130,8 +129,8 @@ def exT : List DNode :=
    .term 3 {} [] []]
 
 example : WfForest exS exT := by
-  refine ⟨⟨rfl, rfl, ⟨rfl, trivial, .bool true, rfl, rfl⟩, ⟨rfl, ⟨by simp [Val.Ty.WF, Val.PartsWF], .num 7, rfl, rfl⟩⟩, ⟨rfl, ⟨by simp [Val.Ty.WF, Val.PartsWF], .num 255, rfl, rfl⟩⟩, trivial⟩,
-    ⟨rfl, rfl⟩, trivial⟩
+  refine ⟨⟨rfl, rfl, ⟨⟨rfl, ⟨trivial, .bool true, rfl, rfl⟩, (by intro m h; cases h)⟩, ⟨rfl, ⟨by simp [Val.Ty.WF, Val.PartsWF], .num 7, rfl, rfl⟩, (by intro m h; cases h)⟩, ⟨rfl, ⟨by simp [Val.Ty.WF, Val.PartsWF], .num 255, rfl, rfl⟩, (by intro m h; cases h)⟩, trivial⟩, (by intro m h; cases h)⟩,
+    ⟨rfl, rfl, (by intro m h; cases h)⟩, trivial⟩
 
 def exImg : Bytes :=
   [108, 121, 98, 5, 1, 0, 3, 0, 109, 111, 100, 0, 0, 0, 0, 50, 0, 2, 0, 0, 3, 0, 109, 111, 100, 0, 0, 200, 0, 0, 0,
@@ -145,11 +144,44 @@ the parse of the image -/
 theorem exPrint : printLyb Params.gen {} exS exT = some exImg := by decide
 
 example : parseLyb Params.gen exS exImg = some exT :=
-  lyb_tree_roundtrip_gen {} ⟨rfl, rfl⟩ exS (by intro w h; cases h) (by decide) (by decide) exT
+  lyb_tree_roundtrip_gen {} ⟨rfl, rfl⟩ exS (by intro a h; cases h) (by decide) (by decide) exT
     (by
-      refine ⟨⟨rfl, rfl, ⟨rfl, trivial, .bool true, rfl, rfl⟩, ⟨rfl, ⟨by simp [Val.Ty.WF, Val.PartsWF], .num 7, rfl, rfl⟩⟩,
-        ⟨rfl, ⟨by simp [Val.Ty.WF, Val.PartsWF], .num 255, rfl, rfl⟩⟩, trivial⟩, ⟨rfl, rfl⟩, trivial⟩)
+      refine ⟨⟨rfl, rfl, ⟨⟨rfl, ⟨trivial, .bool true, rfl, rfl⟩, (by intro m h; cases h)⟩, ⟨rfl, ⟨by simp [Val.Ty.WF, Val.PartsWF], .num 7, rfl, rfl⟩, (by intro m h; cases h)⟩, ⟨rfl, ⟨by simp [Val.Ty.WF, Val.PartsWF], .num 255, rfl, rfl⟩, (by intro m h; cases h)⟩, trivial⟩, (by intro m h; cases h)⟩,
+    ⟨rfl, rfl, (by intro m h; cases h)⟩, trivial⟩)
     exImg exPrint
+
+/-- `exS` with an annotation `mod:hint` (string) -/
+def exAnnot : Annot := { modName := [109, 111, 100], rev := none, name := [104, 105, 110, 116], ty := .val (.str []) }
+def exSm : LSchema := { exS with annots := [exAnnot] }
+/-- the container carries `hint = "hi"`, its leaf two instances `hint = ""` and `hint = "x"` -/
+def exTm : List DNode :=
+  [.inner 0 {} [(exAnnot.key, [104, 105])] [.term 1 {} [(exAnnot.key, []), (exAnnot.key, [120])] [116, 114, 117, 101]]]
+
+theorem exSm_ok : AnnotsOk exSm := by
+  intro a ha
+  simp only [exSm, LSchema.annotsEff, exS, List.mem_singleton] at ha
+  subst ha
+  refine ⟨by decide, ?_, ?_⟩
+  · simp [exSm, LSchema.annotsEff, exS]
+  · simp only [exSm, LSchema.annotsEff, exS, List.find?_cons, List.find?_nil]
+    have : modMatches exAnnot.modName (unpackRev (packRev exAnnot.rev)) exAnnot.modName exAnnot.rev = true := by decide
+    simp [this]
+
+set_option maxRecDepth 100000 in
+/-- non-vacuity (audit), metadata: the printer succeeds on that tree and the theorem gives the parse of its image -/
+example : ∃ img, printLyb Params.gen {} exSm exTm = some img ∧ parseLyb Params.gen exSm img = some exTm := by
+  have h : (printLyb Params.gen {} exSm exTm).isSome = true := by decide
+  obtain ⟨img, himg⟩ := Option.isSome_iff_exists.mp h
+  have hmem : exAnnot ∈ exSm.annotsEff := by simp [exSm, LSchema.annotsEff, exS]
+  refine ⟨img, himg, lyb_tree_roundtrip_gen {} ⟨rfl, rfl⟩ exSm exSm_ok (by decide) (by decide) exTm ?_ img himg⟩
+  refine ⟨⟨rfl, rfl, ⟨⟨rfl, ⟨trivial, .bool true, rfl, rfl⟩, ?_⟩, trivial⟩, ?_⟩, trivial⟩
+  · intro m hm
+    simp only [List.mem_cons, List.not_mem_nil, or_false] at hm
+    rcases hm with rfl | rfl <;> exact ⟨exAnnot, hmem, rfl, rfl⟩
+  · intro m hm
+    simp only [List.mem_singleton] at hm
+    subst hm
+    exact ⟨exAnnot, hmem, rfl, rfl⟩
 
 /-! ## outside the hypotheses -/
 
@@ -170,7 +202,7 @@ theorem lyb_tree_print_total_fails :
     ¬ ∀ (S : LSchema) (t : List DNode), S.modName ≠ [] → WfForest S t → (printLyb Params.gen {} S t).isSome = true := by
   intro H
   have := H f27S [.inner 0 {} [] [.term 1 {} [] [118]]] (by decide)
-    ⟨⟨rfl, rfl, ⟨rfl, ⟨trivial, .str [118], rfl, rfl⟩⟩, trivial⟩, trivial⟩
+    ⟨⟨rfl, rfl, ⟨⟨rfl, ⟨trivial, .str [118], rfl, rfl⟩, (by intro m h; cases h)⟩, trivial⟩, (by intro m h; cases h)⟩, trivial⟩
   revert this
   decide
 
